@@ -250,10 +250,10 @@ def render_layout(v):
 
 def main(ck):
     tree = cy.Tree('C29')
-    ncls = ck.pick(60, 600)
+    ncls = ck.pick(60, 300)
     per_mod = ck.pick(15, 40)
     nvals = ck.pick(4, 6)
-    npairs = ck.pick(40, 400)
+    npairs = ck.pick(40, 200)
     # ------------------------------------------------------------------ part 1: classes
     groups = []
     classes = {}
